@@ -75,8 +75,10 @@ func write(md *memoryDatabase, buf []byte, memTimeSeries uint32, fieldIndex uint
 		oldValue := encoding.BytesToFloat64(buf[pos : pos+8])
 		value = fieldType.AggType().Aggregate(oldValue, value)
 	} else {
-		// new data for time slot
-		buf[endOffset] = byte(delta)
+		// new data for time slot, end time cannot move back(slots maybe written out of order)
+		if byte(delta) > buf[endOffset] {
+			buf[endOffset] = byte(delta)
+		}
 		buf[markOffset+markIdx] |= flagIdx // mark value exist
 	}
 	// finally, write value into the body of current write buffer
